@@ -6,6 +6,8 @@ HOOKS = {
     "add_only": True,
 }
 ENGINES = [
+    {"name": "ENV", "path": "/verif/amc/kit + /verif/amc/explore", "serves_properties": ["C08"],
+     "kind_free_text": "deviation-bounded enumeration of environment answers on one thread: fault kind/position per handler call, veto positions, map iteration orders; every placement up to the bound is executed on the real code inside a synctest bubble"},
     {"name": "SCHED", "path": "/verif/amc/shim/vsched + /verif/amc/explore + /verif/amc/instr", "serves_properties": ["C04"],
      "kind_free_text": "stateless model checking: source instrumenter (go build -overlay) turns every sync/atomic/go/channel operation into a schedule point of a cooperative scheduler running inside a testing/synctest bubble; DFS over choice lists with iterative deviation bounding, causal zero-cost continuation, conflict-based point reduction, replayable schedules"},
     {"name": "SEQ", "path": "/verif/amc/kit", "serves_properties": ["C01", "C02", "C03", "C05", "C07", "C14"],
@@ -62,5 +64,12 @@ LEVELS = {
         "text": "Every history (BFS path + one operation) over the enumerated schemas is run on a fresh machine with two tracers attached from the start; per tracer the callback grammar (Init Start Finals? End per transition, contiguous), Finals iff accepted, before/after chaining, TimeAfter == machine time at TransitionEnd, canceled/check => no change, last report == final time, and equality of the two tracers' sequences are checked.",
         "design_ref": "DESIGN.md section 5 C14",
         "note": "Trusted: nothing beyond the harness tracer itself. The dbg/history tracers named in the anchors are exercised by C16/C17.",
+    },
+    "C08": {
+        "engine": "ENV",
+        "technique": "exhaustive fault-position enumeration on the real machine (every handler call x fault kind, singly and in ordered pairs), one fake-time bubble per case",
+        "text": "For every base transition every handler call position receives each fault kind; the mutating call must return, a probe mutation must execute afterwards, panic => Exception active with the message, timeout => Canceled + ErrHandlerTimeout, negotiation fault => nothing moved, final fault => exactly the unfinished activations/deactivations rolled back, parity == activity in every view.",
+        "design_ref": "DESIGN.md section 5 C08, section 4.3",
+        "note": "Trusted: synctest fake clock; the harness handlers. Struct-reflection handlers are exercised through the ExceptionHandler-embedding binding only.",
     },
 }
